@@ -428,6 +428,21 @@ fn episode(k: usize, kind: u64, rng: &mut Rng, g: &mut BinGen) -> (Vec<String>, 
             st.push(format!("r{k} = {y}"));
             exp = yb;
         }
+        33 => {
+            // a select that ENDS IN AN ERROR (a listed process fails) while one of its sources is a
+            // filter closure that captured a binary made by the selecting process itself: the source
+            // list must be released with everything else the failed process held
+            let (x, _) = g.heap(rng);
+            let (y, yb) = g.heap(rng);
+            st.push(format!("c{k} = @{{ m = !'int, [m, 0] __integer_divide__ }}"));
+            st.push(format!("e{k} = @{{ kk = {x}, ! [c{k}, #'int {{ =m, z = [kk, kk] __binary_concat__, [] }}] }}"));
+            if rng.chance(1, 2) {
+                st.push(format!("7 e{k}"));
+            }
+            st.push(format!("1 c{k}"));
+            st.push(format!("r{k} = {y}"));
+            exp = yb;
+        }
         32 => {
             // binaries through a loopback TCP connection: written by one process, read, doubled and
             // written back by another (effect requests and completions carrying heap binaries in both
@@ -464,7 +479,7 @@ fn episode(k: usize, kind: u64, rng: &mut Rng, g: &mut BinGen) -> (Vec<String>, 
     (st, exp)
 }
 
-pub const NKINDS: u64 = 33;
+pub const NKINDS: u64 = 34;
 
 impl Property for C06 {
     fn id(&self) -> &'static str {
